@@ -912,6 +912,16 @@ func (pe *pathEnum) walk(stack []inlFrame, b *ssa.BasicBlock, from int, items []
 					}
 				}
 				pe.inlined[callee] = true
+				// entering an instantiation of a generic helper: its type parameters stand for these arguments
+				if inst := call.Call.StaticCallee(); inst != nil {
+					if tas := inst.TypeArgs(); len(tas) > 0 {
+						if tps := originOf(inst).TypeParams(); tps != nil {
+							for k := 0; k < tps.Len() && k < len(tas); k++ {
+								typeSubst[tps.At(k)] = tas[k]
+							}
+						}
+					}
+				}
 				ns := append(append([]inlFrame{}, stack...), inlFrame{fn: callee, call: call, blk: b, idx: i, vh: map[*ssa.BasicBlock]int{}})
 				pe.enter(ns, nil, callee.Blocks[0], items, depth+1)
 				return
@@ -1065,7 +1075,13 @@ func (P *Prog) enumPathsSpec(fn *ssa.Function, env map[ssa.Value]ssa.Value, spec
 	for k, v := range env {
 		substEnv[k] = v
 	}
-	defer func() { substEnv = saved }()
+	// (type arguments of generic helpers are scoped to one enumeration, like the value substitution)
+	savedT := typeSubst
+	typeSubst = map[*types.TypeParam]types.Type{}
+	for k, v := range savedT {
+		typeSubst[k] = v
+	}
+	defer func() { substEnv = saved; typeSubst = savedT }()
 	pe.enter([]inlFrame{{fn: fn, vh: map[*ssa.BasicBlock]int{}}}, nil, fn.Blocks[0], nil, 0)
 	var inl []string
 	for f := range pe.inlined {
